@@ -113,3 +113,33 @@ class Timer:
 
     def __exit__(self, *a):
         self.s = time.time() - self.t
+
+
+def run_suite_with_monitors():
+    """Runs the repository's own test-suite, from a scratch copy of REPO, under the monitors of
+    mk/pytest_monitors.py.  -> report dict, or None when REPO has no test directory."""
+    import shutil
+    import subprocess
+    import tempfile
+
+    if not os.path.isdir(os.path.join(REPO, "test")):
+        return None
+    d = tempfile.mkdtemp(prefix="verif-suite-")
+    try:
+        dst = os.path.join(d, "repo")
+        shutil.copytree(REPO, dst, ignore=shutil.ignore_patterns(".git", "__pycache__", "modules"))
+        rep = os.path.join(d, "report.json")
+        env = dict(os.environ, VERIF_SUITE_REPORT=rep, PYTHONPATH=VERIF, PYTHONDONTWRITEBYTECODE="1")
+        p = subprocess.run(
+            [PYTHON, "-m", "pytest", "-q", "-p", "no:cacheprovider", "-p", "mk.pytest_monitors", "--timeout=900"],
+            cwd=dst, env=env, stdout=subprocess.PIPE, stderr=subprocess.STDOUT, text=True, timeout=1800,
+        )
+        try:
+            with open(rep) as f:
+                out = json.load(f)
+        except Exception:
+            return {"error": p.stdout[-800:]}
+        out["pytest_tail"] = p.stdout.strip().splitlines()[-1] if p.stdout.strip() else ""
+        return out
+    finally:
+        shutil.rmtree(d, ignore_errors=True)
